@@ -41,8 +41,17 @@ func genCase() *rapid.Generator[Case] {
 		n := rapid.IntRange(2, 40).Draw(t, "nops")
 		for i := 0; i < n; i++ {
 			k := rapid.SampledFrom([]string{"create", "create", "update", "update", "update", "delete", "flush", "query", "query", "query"}).Draw(t, "k")
+			if x := rapid.IntRange(0, 19).Draw(t, "admin"); x == 0 {
+				k = "rebuild"
+			} else if x == 1 {
+				k = "init"
+			}
 			op := Op{K: k}
 			switch k {
+			case "init":
+				op.ID = rapid.SampledFrom(idAlpha).Draw(t, "id")
+				op.A = rapid.SampledFrom(fieldAlpha).Draw(t, "a")
+				op.B = rapid.SampledFrom(fieldAlpha).Draw(t, "b")
 			case "create", "update":
 				op.ID = rapid.SampledFrom(idAlpha).Draw(t, "id")
 				op.A = rapid.SampledFrom(fieldAlpha).Draw(t, "a")
